@@ -313,6 +313,35 @@ func guardedPlan(in []mergeplan.Segment, o *mergeplan.Options) (p *mergeplan.Mer
 	}
 }
 
+// logBudget is an independent statement of "the planner's logarithmic
+// budget": the number of segments of a staircase of tiers, MaxSegmentsPerTier
+// wide, whose step size starts at the floor (or the smallest segment) and
+// grows by TierGrowth, needed to cover total live documents - plus one tier
+// of slack. It does not call the planner's own CalcBudget.
+func logBudget(total, first int64, o *mergeplan.Options) int {
+	if first < 1 {
+		first = 1
+	}
+	per := o.MaxSegmentsPerTier
+	if per < 1 {
+		per = 1
+	}
+	g := o.TierGrowth
+	if g < 1 {
+		g = 1
+	}
+	n, step, covered := 0, float64(first), 0.0
+	for covered < float64(total) && n < 1<<20 {
+		covered += float64(per) * step
+		n += per
+		step *= g
+		if g == 1 && n > int(total)+per {
+			break
+		}
+	}
+	return n + per
+}
+
 // ---- sizes-only simulation round the real planner ---------------------------
 
 func c19SizesSpecial(t *testing.T, job *Job, res *Result) *Result {
@@ -392,6 +421,18 @@ func c19SizesSpecial(t *testing.T, job *Job, res *Result) *Result {
 		if msg := checkPlan(in, &o, p1); msg != "" {
 			return nil, fail("plan-well-formed", fmt.Sprintf("plan [%s]: %s", planKey(p1), msg))
 		}
+		if len(in) > 1 {
+			// the same segments in another order must give the same tasks
+			perm := append([]mergeplan.Segment(nil), in...)
+			for i := len(perm) - 1; i > 0; i-- {
+				j := int(rng.Next() % uint64(i+1))
+				perm[i], perm[j] = perm[j], perm[i]
+			}
+			p3, _ := mergeplan.Plan(perm, &o)
+			if planKey(p1) != planKey(p3) {
+				return nil, fail("plan-deterministic", fmt.Sprintf("the same %d segments in another input order: [%s] instead of [%s]", len(in), planKey(p3), planKey(p1)))
+			}
+		}
 		plans++
 		return p1, nil
 	}
@@ -455,6 +496,9 @@ func c19SizesSpecial(t *testing.T, job *Job, res *Result) *Result {
 		budget := mergeplan.CalcBudget(total, o.RaiseToFloorSegmentSize(minLive), &o)
 		if int(eligibles) > budget {
 			return fail("plan-budget", fmt.Sprintf("at the fixpoint %d mergeable segments remain for %d live documents; budget %d", eligibles, total, budget))
+		}
+		if lb := logBudget(total, o.RaiseToFloorSegmentSize(minLive), &o); int(eligibles) > lb {
+			return fail("plan-budget", fmt.Sprintf("at the fixpoint %d mergeable segments remain for %d live documents: more than the logarithmic staircase bound %d (%d per tier, growth %g, first tier %d)", eligibles, total, lb, o.MaxSegmentsPerTier, o.TierGrowth, o.RaiseToFloorSegmentSize(minLive)))
 		}
 	}
 	res.Extra["plans_checked"] = float64(plans)
